@@ -234,7 +234,15 @@ func EncodeWith(comp string, f *frame.Frame) (primitive.HeaderFlag, []byte, erro
 	b := buf.Bytes()
 	flags, body := primitive.HeaderFlag(b[1]), b[9:]
 	if strings.EqualFold(comp, "lz4") && flags.Contains(primitive.HeaderFlagCompressed) {
-		body = fakecass.ValidLz4Body(body) // the library's compressor can emit an invalid block; never send a malformed frame by accident
+		// the library's compressor can emit an invalid block, or a valid one that decodes to other bytes: never send a
+		// malformed frame by accident (the client's frames are the "well-formed requests" of the oracles)
+		body = fakecass.ValidLz4Body(body)
+		f.SetCompress(false)
+		var pbuf bytes.Buffer
+		if perr := Plain.EncodeFrame(f, &pbuf); perr == nil {
+			body = fakecass.Lz4BodyFor(pbuf.Bytes()[9:], body)
+		}
+		f.SetCompress(true)
 	}
 	return flags, body, nil
 }
